@@ -59,6 +59,7 @@ from jaqalpaq.core.algorithm import (  # noqa: E402
 from jaqalpaq.core.algorithm.fill_in_map import fill_in_map  # noqa: E402
 from jaqalpaq.core.result import parse_jaqal_output_list  # noqa: E402
 from jaqalpaq.emulator import run_jaqal_circuit, run_jaqal_string  # noqa: E402
+from jaqalpaq.emulator.unitary import UnitarySerializedEmulator  # noqa: E402  (the default backend of run_jaqal_circuit)
 
 
 def parse(text, **kw):
